@@ -2,8 +2,13 @@
 
 Pure data plumbing: builds the lattice described by a spec, calls the public methods and dumps
 their raw results as JSON.  No checking is done here.
+
+Besides the results the runner reports the set of source lines of tenpy/models/lattice.py that were executed
+(sys.monitoring LINE events, each location disabled after its first hit), from which harness/c19_audit.py builds the
+coverage table function x branch.
 """
 import json
+import os
 import sys
 import traceback
 import warnings
@@ -12,9 +17,47 @@ import numpy as np
 
 warnings.simplefilter('ignore')
 
+TARGET = os.sep.join(['tenpy', 'models', 'lattice.py'])
+HIT = set()
+
+
+def start_monitor():
+    mon = getattr(sys, 'monitoring', None)
+    if mon is not None:
+        tid = mon.COVERAGE_ID
+        try:
+            mon.use_tool_id(tid, 'c19cov')
+        except ValueError:
+            return 'unavailable'
+
+        def cb(code, line):
+            if code.co_filename.endswith(TARGET):
+                HIT.add(line)
+            return mon.DISABLE
+        mon.register_callback(tid, mon.events.LINE, cb)
+        mon.set_events(tid, mon.events.LINE)
+        return 'sys.monitoring'
+
+    def tracer(frame, event, arg):
+        if not frame.f_code.co_filename.endswith(TARGET):
+            return None
+
+        def local(frame, event, arg):
+            if event == 'line':
+                HIT.add(frame.f_lineno)
+            return local
+        HIT.add(frame.f_lineno)
+        return local
+    sys.settrace(tracer)
+    return 'sys.settrace'
+
 
 def tolist(a):
     return np.asarray(a).astype(int).tolist()
+
+
+def flist(a):
+    return np.asarray(a, dtype=float).tolist()
 
 
 def conv_order(o):
@@ -28,28 +71,72 @@ def conv_order(o):
     raise ValueError(o)
 
 
+def label(s):
+    """printable identity of an entry of the unit cell (strings for plain lattices, Site objects by local dimension)"""
+    if s is None or isinstance(s, str):
+        return s
+    return 'dim%d' % s.dim
+
+
+def labels(sites):
+    return [label(s) for s in sites]
+
+
 BASE_INFO = {}
+BASE_AFTER = {}
+PROBES = {}
+
+
+def lat_state(lat):
+    st = {'Ls': [int(x) for x in lat.Ls], 'N_sites': int(lat.N_sites), 'order': tolist(lat.order), 'bc_MPS': lat.bc_MPS,
+          'boundary_conditions': [b if isinstance(b, str) else int(b) for b in lat.boundary_conditions]}
+    try:
+        st['mps_sites'] = labels(lat.mps_sites())
+    except Exception as e:
+        st['mps_sites'] = {'error': type(e).__name__ + ': ' + str(e)[:200]}
+    return st
 
 
 def build(spec):
-    """the lattice of spec, with the lattice-transforming method of spec['transform'] applied"""
+    """the lattice of spec, with the order change spec['reorder'] and the lattice-transforming method of spec['transform'] applied"""
+    PROBES.clear()
+    BASE_INFO.clear()
+    BASE_AFTER.clear()
     lat = build_base(spec)
+    opts = spec.get('opts') or {}
+    if opts.get('bc_roundtrip'):
+        lat.boundary_conditions = lat.boundary_conditions      # getter -> setter
+    ro = spec.get('reorder')
+    if ro is not None:
+        # use the lattice first (fills every cache), then give it another order through the property setter
+        PROBES['pre_reorder_sites'] = labels(lat.mps_sites())
+        lat.mps2lat_idx(0)
+        lat.lat2mps_idx(lat.order[-1])
+        lat.possible_couplings(0, 0, np.ones(lat.dim, dtype=np.intp))
+        lat.order = lat.ordering(conv_order(ro))
     tr = spec.get('transform')
     if not tr:
         return lat
     # state before the transform (input of the model of the transform)
-    BASE_INFO.clear()
-    BASE_INFO.update({'Ls': [int(x) for x in lat.Ls], 'N_sites': int(lat.N_sites), 'order': tolist(lat.order)})
+    BASE_INFO.update(lat_state(lat))       # (calls mps_sites(): the transform starts from a lattice that has been used)
     reg = getattr(lat, 'regular_lattice', None)
     if reg is not None:
         BASE_INFO.update({'reg_N_cells': int(reg.N_cells), 'reg_order': tolist(reg.order)})
     if tr['op'] == 'enlarge':
-        lat.enlarge_mps_unit_cell(tr['factor'])       # in place
+        if tr.get('factor') is None:
+            lat.enlarge_mps_unit_cell()               # default factor=2
+        else:
+            lat.enlarge_mps_unit_cell(tr['factor'])       # in place
         return lat
     if tr['op'] == 'segment':
         if tr.get('enlarge') is not None:
-            return lat.extract_segment(enlarge=tr['enlarge'])
-        return lat.extract_segment(tr['first'], tr['last'])
+            seg = lat.extract_segment(enlarge=tr['enlarge'])
+        elif tr.get('last') is None:
+            seg = lat.extract_segment() if not tr.get('first') else lat.extract_segment(tr['first'])
+        else:
+            seg = lat.extract_segment(tr['first'], tr['last'])
+        BASE_AFTER.update(lat_state(lat))            # extract_segment returns a copy: `lat` itself stays as it was
+        return seg
     raise ValueError(tr)
 
 
@@ -61,36 +148,58 @@ def species_sites(n):
 
 def build_base(spec, simple_only=False):
     from tenpy.models import lattice
-    from tenpy.networks import site as tsite
     cls = spec['cls']
     wrap = spec.get('wrap')
+    opts = spec.get('opts') or {}
     kw = {'bc': [b for b in spec['bc']] if not isinstance(spec['bc'], str) else spec['bc'],
           'bc_MPS': spec['bc_MPS']}
     ms_or_simple_order = conv_order(spec['order'])
     if not (wrap and wrap['kind'] == 'multi'):
         kw['order'] = ms_or_simple_order
-    s = None
+    Lu = spec['Lu']
     if wrap and wrap['kind'] == 'helical':
-        s = tsite.SpinHalfSite(conserve=None)
+        uc = species_sites(Lu)            # (HelicalLattice reads unit_cell[0].leg: needs Site instances)
+    else:
+        uc = ['u%d' % u for u in range(Lu)]         # distinguishable entries of the unit cell
     Ls = spec['Ls']
+    geom = spec.get('geom')
+    if opts.get('sites_none') and cls in ('Ladder', 'NLegLadder', 'Honeycomb', 'Kagome') and not (wrap and wrap['kind'] == 'helical'):
+        uc = None                 # a single entry (here None) instead of a list: used for every site of the unit cell
+    if geom and cls in ('Chain', 'Square', 'Triangular'):
+        kw['positions'] = list(geom['positions'])            # "positions can be specified as a single vector"
+        if geom.get('basis'):
+            kw['basis'] = np.array(geom['basis'], dtype=float)
     if cls == 'Chain':
-        lat = lattice.Chain(Ls[0], s, **kw)
+        lat = lattice.Chain(Ls[0], uc[0], **kw)
     elif cls == 'Ladder':
-        lat = lattice.Ladder(Ls[0], s, **kw)
+        lat = lattice.Ladder(Ls[0], uc, **kw)
     elif cls == 'NLegLadder':
-        lat = lattice.NLegLadder(Ls[0], spec['Lu'], s, **kw)
-    elif cls in ('Square', 'Triangular', 'Honeycomb', 'Kagome'):
-        lat = getattr(lattice, cls)(Ls[0], Ls[1], s, **kw)
+        lat = lattice.NLegLadder(Ls[0], Lu, uc, **kw)
+    elif cls in ('Square', 'Triangular'):
+        lat = getattr(lattice, cls)(Ls[0], Ls[1], uc[0], **kw)
+    elif cls in ('Honeycomb', 'Kagome'):
+        lat = getattr(lattice, cls)(Ls[0], Ls[1], uc, **kw)
     elif cls == 'Lattice':
-        lat = lattice.Lattice(Ls, [s] * spec['Lu'], **kw)
+        if geom:
+            kw['basis'] = np.array(geom['basis'], dtype=float)
+            kw['positions'] = np.array(geom['positions'], dtype=float)
+        lat = lattice.Lattice(Ls, uc, **kw)
+    elif cls == 'Trivial':
+        lat = lattice.TrivialLattice(uc, **kw)
     else:
         raise ValueError(cls)
+    if opts.get('disorder_seed') is not None:
+        rs = np.random.RandomState(opts['disorder_seed'])
+        lat.position_disorder = 0.1 * rs.random_sample(tuple(lat.shape) + (lat.basis.shape[-1],))
+        lat.test_sanity()
     if spec.get('custom_perm') is not None and not (wrap and wrap['kind'] == 'multi'):
+        lat.mps_sites()             # (fill the cache before the order changes)
         lat.order = lat.order[np.array(spec['custom_perm'], dtype=np.intp)]
     if wrap is None or simple_only:
         return lat
     if wrap['kind'] == 'multi':
         ms = lattice.MultiSpeciesLattice(lat, species_sites(wrap['n_species']), wrap.get('names'))
+        ms.mps_sites()
         ms.order = ms.ordering(ms_or_simple_order)
         if spec.get('custom_perm') is not None:
             ms.order = ms.order[np.array(spec['custom_perm'], dtype=np.intp)]
@@ -102,11 +211,41 @@ def build_base(spec, simple_only=False):
         rem = wrap.get('remove') or None
         nuc = wrap.get('n_add_uc', 0)
         # (the default add_positions assumes dim == Dim, which fails for the ladders: give them explicitly)
-        return lattice.IrregularLattice(lat, remove=rem, add=add, add_unit_cell=[None] * nuc,
+        return lattice.IrregularLattice(lat, remove=rem, add=add, add_unit_cell=['a%d' % k for k in range(nuc)],
                                         add_positions=np.zeros((nuc, lat.unit_cell_positions.shape[1])))
     if wrap['kind'] == 'helical':
         return lattice.HelicalLattice(lat, wrap['N_unit_cells'])
     raise ValueError(wrap)
+
+
+def snapshot(lat):
+    """everything the queries must leave untouched"""
+    s = {'order': tolist(lat.order), 'Ls': [int(x) for x in lat.Ls], 'shape': [int(x) for x in lat.shape],
+         'N_sites': int(lat.N_sites), 'N_cells': int(lat.N_cells), 'bc': [bool(b) for b in lat.bc],
+         'bc_shift': None if lat.bc_shift is None else tolist(lat.bc_shift), 'bc_MPS': lat.bc_MPS,
+         'perm': tolist(lat._perm), 'fix_u': [tolist(a) for a in lat._mps_fix_u], 'strides': tolist(lat._strides),
+         'pairs': {k: [[int(u1), int(u2), tolist(dx)] for (u1, u2, dx) in v] for k, v in lat.pairs.items()},
+         'uc_pos': flist(lat.unit_cell_positions), 'basis': flist(lat.basis)}
+    for name in ('_mps2lat_vals_idx',):
+        if hasattr(lat, name):
+            s[name] = tolist(getattr(lat, name))
+    if hasattr(lat, '_mps2lat_vals_idx_fix_u'):
+        s['vals_idx_fix_u'] = [tolist(a) for a in lat._mps2lat_vals_idx_fix_u]
+    reg = getattr(lat, 'regular_lattice', None)
+    if reg is not None:
+        s['reg_order'] = tolist(reg.order)
+        s['reg_perm'] = tolist(reg._perm)
+    return s
+
+
+def strength_for(k, sh):
+    """three forms of the `strength` argument, by query number: full array / array with zeros / scalar"""
+    n = int(np.prod(sh))
+    if k % 3 == 0:
+        return np.arange(1, n + 1).reshape(sh).astype(float)
+    if k % 3 == 1:
+        return (np.arange(n) % 3).reshape(sh).astype(float)
+    return 2.5
 
 
 def run(spec):
@@ -116,9 +255,19 @@ def run(spec):
         return {'build_error': type(e).__name__ + ': ' + str(e)[:200], 'tb': traceback.format_exc()[-600:]}
     q = spec['queries']
     out = {}
+    if spec.get('geom') and spec['cls'] == 'Lattice':
+        # documented use of find_coupling_pairs: its shells become the pairs of the lattice
+        try:
+            fp = lat.find_coupling_pairs(2, None)
+            for name, key in zip(['nearest_neighbors', 'next_nearest_neighbors', 'next_next_nearest_neighbors'], sorted(fp)):
+                lat.pairs[name] = fp[key]
+        except Exception as e:
+            return {'build_error': 'find_coupling_pairs: ' + type(e).__name__ + ': ' + str(e)[:200], 'tb': traceback.format_exc()[-600:]}
     if spec.get('transform'):
         out['base'] = dict(BASE_INFO)
-    # (HelicalLattice accepts translation invariant strengths only: strength variant not exercised)
+        if BASE_AFTER:
+            out['base_after'] = dict(BASE_AFTER)
+    out['probes'] = dict(PROBES)
     helical = bool(spec.get('wrap')) and spec['wrap']['kind'] == 'helical'
     out['Ls'] = [int(x) for x in lat.Ls]
     out['shape'] = [int(x) for x in lat.shape]
@@ -131,11 +280,19 @@ def run(spec):
     out['order'] = tolist(lat.order)
     out['dim'] = int(lat.dim)
 
-    def guarded(name, f):
+    def guarded(name, f, dest=None):
+        dest = out if dest is None else dest
         try:
-            out[name] = f()
+            dest[name] = f()
         except Exception as e:
-            out[name] = {'error': type(e).__name__ + ': ' + str(e)[:200]}
+            dest[name] = {'error': type(e).__name__ + ': ' + str(e)[:200]}
+
+    guarded('snap0', lambda: snapshot(lat))
+    # the sites of the MPS (cache filled before build() changed the order / enlarged the unit cell)
+    guarded('uc_labels', lambda: labels(lat.unit_cell))
+    N = int(lat.N_sites)
+    guarded('site_i', lambda: [[i, label(lat.site(i))] for i in sorted(set([0, N - 1, N // 2, -1]))])
+    guarded('mps_sites', lambda: labels(lat.mps_sites()))
 
     # named orderings evaluated on this lattice (ordering() does not change the lattice)
     def named():
@@ -146,55 +303,140 @@ def run(spec):
             except Exception as e:
                 res.append({'error': type(e).__name__ + ': ' + str(e)[:200]})
         return res
+    perm_before = np.array(lat._perm).copy()
     guarded('orderings', named)
-    # index maps, one call with the whole array and one call per element
-    guarded('mps2lat', lambda: tolist(lat.mps2lat_idx(np.array(q['mps_idx'], dtype=np.intp))) if q['mps_idx'] else [])
-    guarded('mps2lat_single', lambda: [tolist(lat.mps2lat_idx(int(i))) for i in q['mps_idx'][:: max(1, len(q['mps_idx']) // 6)]])
-    guarded('lat2mps', lambda: tolist(lat.lat2mps_idx(np.array(q['lat_idx'], dtype=np.intp))) if q['lat_idx'] else [])
-    guarded('lat2mps_single', lambda: [int(lat.lat2mps_idx(x)) for x in q['lat_idx'][:: max(1, len(q['lat_idx']) // 6)]])
+    if not np.array_equal(perm_before, np.asarray(lat._perm)):
+        # ordering() is a query; when it leaves the lattice in another state this is reported, and the state put back so
+        # that the remaining queries are those of the lattice as specified
+        out['ordering_changed_perm'] = [tolist(perm_before), tolist(lat._perm)]
+        lat._perm = perm_before
+    # index maps, one call with the whole array and one call per element; every returned array is overwritten afterwards
+    # (the results must be independent copies)
+    step_m = max(1, len(q['mps_idx']) // 6)
+    step_l = max(1, len(q['lat_idx']) // 6)
+
+    def m2l_array():
+        if not q['mps_idx']:
+            return []
+        r = lat.mps2lat_idx(np.array(q['mps_idx'], dtype=np.intp))
+        v = tolist(r)
+        r[...] = -77
+        return v
+
+    def m2l_single():
+        res = []
+        for i in q['mps_idx'][::step_m]:
+            r = lat.mps2lat_idx(int(i))
+            res.append(tolist(r))
+            r += 1000
+            r[...] = -77
+        return res
+
+    def l2m_array():
+        if not q['lat_idx']:
+            return []
+        arg = np.array(q['lat_idx'], dtype=np.intp)
+        arg0 = arg.copy()
+        r = lat.lat2mps_idx(arg)
+        v = tolist(r)
+        out['l2m_arg_changed'] = not np.array_equal(arg, arg0)
+        r[...] = -77
+        return v
+    guarded('mps2lat', m2l_array)
+    guarded('mps2lat_single', m2l_single)
+    guarded('lat2mps', l2m_array)
+    guarded('lat2mps_single', lambda: [int(lat.lat2mps_idx(x)) for x in q['lat_idx'][::step_l]])
     guarded('fix_u', lambda: [tolist(lat.mps_idx_fix_u(u)) for u in range(len(lat.unit_cell))])
     guarded('fix_u_none', lambda: tolist(lat.mps_idx_fix_u(None)))
     guarded('lat_fix_u', lambda: [[tolist(a) for a in lat.mps_lat_idx_fix_u(u)] for u in range(len(lat.unit_cell))])
 
+    # ---- other argument forms of the index maps, results fed into the inverse map
+    ex = {}
+    mi = list(q['mps_idx'])
+
+    def forms_m2l():
+        r = {}
+        r['list'] = tolist(lat.mps2lat_idx(list(mi)))
+        h = len(mi) // 2
+        r['2d'] = tolist(lat.mps2lat_idx(np.array(mi[:2 * h], dtype=np.intp).reshape(2, h))) if h else []
+        r['npint'] = [tolist(lat.mps2lat_idx(np.int64(i))) for i in mi[::step_m]]
+        return r
+
+    def forms_l2m():
+        r = {}
+        li = q['lat_idx']
+        r['tuple'] = [int(lat.lat2mps_idx(tuple(x))) for x in li[::step_l]]
+        h = len(li) // 2
+        r['3d'] = tolist(lat.lat2mps_idx(np.array(li[:2 * h], dtype=np.intp).reshape(2, h, -1))) if h else []
+        r['nested_list'] = tolist(lat.lat2mps_idx([list(x) for x in li[:7]]))
+        return r
+
+    def roundtrip():
+        a = lat.mps2lat_idx(np.array(mi, dtype=np.intp))
+        b = lat.lat2mps_idx(a)                           # the returned array itself as argument of the inverse
+        c = lat.mps2lat_idx(b)
+        return {'l2m_of_m2l': tolist(b), 'm2l_again': tolist(c)}
+    guarded('forms_m2l', forms_m2l, ex)
+    guarded('forms_l2m', forms_l2m, ex)
+    if mi:
+        guarded('roundtrip', roundtrip, ex)
+    guarded('fix_u_default', lambda: tolist(lat.mps_idx_fix_u()), ex)
+    guarded('lat_fix_u_none', lambda: [tolist(a) for a in lat.mps_lat_idx_fix_u()], ex)
+
     # couplings
     cps = []
-    for (u1, u2, dx) in q.get('couplings', []):
+    for k, (u1, u2, dx) in enumerate(q.get('couplings', [])):
         try:
-            i, j, li, sh = lat.possible_couplings(u1, u2, np.array(dx, dtype=np.intp))
+            dxa = np.array(dx, dtype=np.intp) if k % 4 else list(dx)         # array and plain list
+            i, j, li, sh = lat.possible_couplings(u1, u2, dxa)
             r = {'i': tolist(i), 'j': tolist(j), 'lat': tolist(li) if len(li) else [], 'shape': [int(x) for x in sh]}
-            cs, _sft = lat.coupling_shape(np.array(dx, dtype=np.intp))
+            cs, _sft = lat.coupling_shape(dxa)
             r['cshape'] = [int(x) for x in cs]
             r['cshift'] = tolist(_sft)
-            if all(x > 0 for x in sh) and not helical:
-                strength = np.arange(1, int(np.prod(sh)) + 1).reshape(sh).astype(float)
-                i2, j2, sv = lat.possible_couplings(u1, u2, np.array(dx, dtype=np.intp), strength)
+            if any(x == 0 for x in sh) and not helical:
+                i2, j2, sv = lat.possible_couplings(u1, u2, np.array(dx, dtype=np.intp), 2.5)
+                r['spat'] = 2
                 r['s_i'] = tolist(i2)
                 r['s_j'] = tolist(j2)
-                r['s_v'] = tolist(sv)
+                r['s_v'] = flist(sv)
+            if all(x > 0 for x in sh) and (not helical or k % 3 == 2):
+                strength = strength_for(k, sh)
+                i2, j2, sv = lat.possible_couplings(u1, u2, np.array(dx, dtype=np.intp), strength)
+                r['spat'] = k % 3
+                r['s_i'] = tolist(i2)
+                r['s_j'] = tolist(j2)
+                r['s_v'] = flist(sv)
         except Exception as e:
             r = {'error': type(e).__name__ + ': ' + str(e)[:200]}
         cps.append(r)
     out['couplings'] = cps
     mcs = []
-    for ops in q.get('multi', []):
+    for k, ops in enumerate(q.get('multi', [])):
         try:
             o = [('X', list(dx), int(u)) for (dx, u) in ops]
             ijkl, li, sh = lat.possible_multi_couplings(o)
             r = {'ijkl': tolist(ijkl) if len(ijkl) else [], 'lat': tolist(li) if len(li) else [],
                  'shape': [int(x) for x in sh]}
-            if all(x > 0 for x in sh) and not helical:
-                strength = np.arange(1, int(np.prod(sh)) + 1).reshape(sh).astype(float)
-                ijkl2, sv = lat.possible_multi_couplings(o, strength)
+            ms, msft = lat.multi_coupling_shape(np.array([dx for dx, _ in ops], dtype=np.intp))
+            r['mshape'] = [int(x) for x in ms]
+            r['mshift'] = tolist(msft)
+            if any(x == 0 for x in sh) and not helical:
+                ijkl2, sv = lat.possible_multi_couplings(o, 2.5)
+                r['spat'] = 2
                 r['s_ijkl'] = tolist(ijkl2) if len(ijkl2) else []
-                r['s_v'] = tolist(sv)
+                r['s_v'] = flist(sv)
+            if all(x > 0 for x in sh) and (not helical or k % 3 == 2):
+                strength = strength_for(k, sh)
+                ijkl2, sv = lat.possible_multi_couplings(o, strength)
+                r['spat'] = k % 3
+                r['s_ijkl'] = tolist(ijkl2) if len(ijkl2) else []
+                r['s_v'] = flist(sv)
         except Exception as e:
             r = {'error': type(e).__name__ + ': ' + str(e)[:200]}
         mcs.append(r)
     out['multi'] = mcs
 
     # reshaping of per-site values
-    N = int(lat.N_sites)
-
     def vals():
         A = np.arange(N) + 1000
         return tolist(lat.mps2lat_values(A))
@@ -215,6 +457,22 @@ def run(spec):
         return res
     guarded('values_u', vals_u)
 
+    def vals_forms():
+        """single axis that is not the first one (positive, negative, as tuple), and u together with two axes"""
+        r = {}
+        A2 = np.arange(N)[:, None] * 10 + np.arange(3)[None, :]
+        r['ax0'] = tolist(lat.mps2lat_values(A2, axes=(0,)))
+        r['ax1'] = tolist(lat.mps2lat_values(A2.T, axes=1))              # (non-contiguous input)
+        r['axm1'] = tolist(lat.mps2lat_values(np.ascontiguousarray(A2.T), axes=-1))
+        Nc = int(lat.N_cells)
+        if Nc <= 9:
+            u = len(lat.unit_cell) - 1
+            B = np.arange(Nc)[:, None] * 100 + np.arange(Nc)[None, :]
+            r['u2'] = {'u': u, 'val': tolist(lat.mps2lat_values(B, axes=[0, 1], u=u))}
+        return r
+    if not helical and N <= 24:
+        guarded('values_forms', vals_forms, ex)
+
     def vals_masked():
         res = []
         for inds in q.get('masked', []):
@@ -227,21 +485,92 @@ def run(spec):
         return res
     guarded('values_masked', vals_masked)
 
+    def masked_forms():
+        """several axes with an untouched axis in between, lists of mps_inds / include_u; all defaults"""
+        r = {}
+        ms = q.get('masked', [])
+        if len(ms) >= 2 and len(ms[0]) * len(ms[1]) <= 400:
+            i1 = np.array(ms[0], dtype=np.intp)
+            i2 = np.array(ms[1], dtype=np.intp)
+            A = i1[:, None, None] * 1000 + np.arange(2)[None, :, None] * 500000 + (i2[None, None, :] + 100)
+            var = q.get('masked_variant', 0)
+            if var == 0:
+                m = lat.mps2lat_values_masked(A, axes=[0, 2], mps_inds=[i1, i2], include_u=[True, False])
+            elif var == 1:      # axes given in descending order, a negative one
+                m = lat.mps2lat_values_masked(A, axes=[-1, 0], mps_inds=[i2, i1], include_u=[False, True])
+            elif var == 2:
+                m = lat.mps2lat_values_masked(A, axes=(0, 2), mps_inds=[i1, i2])
+            else:               # several axes, mps_inds and include_u left at their defaults
+                kk = min(N, 3)
+                i1 = i2 = np.arange(kk)
+                A = i1[:, None, None] * 1000 + np.arange(2)[None, :, None] * 500000 + (i2[None, None, :] + 100)
+                m = lat.mps2lat_values_masked(A, axes=[0, 2])
+            r['multi'] = {'var': var, 'shape': list(m.shape), 'data': tolist(np.ma.getdata(m)),
+                          'mask': tolist(np.ma.getmaskarray(m))}
+        k = min(N, 3)
+        A = np.arange(k) + 7000
+        m = lat.mps2lat_values_masked(A)                 # axes=-1, mps_inds=arange(k), include_u = (Lu > 1)
+        r['default'] = {'k': k, 'shape': list(m.shape), 'data': tolist(np.ma.getdata(m)), 'mask': tolist(np.ma.getmaskarray(m))}
+        A = np.arange(2 * k).reshape(2, k) + 8000
+        m = lat.mps2lat_values_masked(A, axes=1, include_u=True)      # mps_inds default on the second axis
+        r['default_ax1'] = {'k': k, 'shape': list(m.shape), 'data': tolist(np.ma.getdata(m)), 'mask': tolist(np.ma.getmaskarray(m))}
+        return r
+    guarded('masked_forms', masked_forms, ex)
+
+    # MultiSpeciesLattice: the maps between its unit cell index, the one of the simple lattice and the species
+    if spec.get('wrap') and spec['wrap']['kind'] == 'multi' and hasattr(lat, 'simple_u_to_species_u'):
+        def species_maps():
+            res = []
+            for u in range(len(lat.unit_cell)):
+                su, sp = lat.self_u_to_simple_u(u), lat.self_u_to_species_idx(u)
+                res.append([u, int(su), int(sp), int(lat.simple_u_to_species_u(su, sp))])
+            arr = np.arange(len(lat.unit_cell))
+            return {'rows': res, 'arr': [tolist(lat.self_u_to_simple_u(arr)), tolist(lat.self_u_to_species_idx(arr))],
+                    'N_species': int(lat.N_species), 'simple_Lu': int(lat.simple_Lu), 'names': list(lat.species_names),
+                    'dims': [int(s.dim) for s in lat.unit_cell], 'uc_pos': flist(lat.unit_cell_positions),
+                    'simple_uc_pos': flist(lat.simple_lattice.unit_cell_positions)}
+        guarded('species_maps', species_maps, ex)
+
+    def grouped():
+        m = max(1, (N + 1) // 2)
+        names = ['g%d' % k for k in range(m)]
+        g = lat.with_grouped_sites(names)
+        return {'cls': type(g).__name__, 'shape': [int(x) for x in g.shape], 'bc_MPS': g.bc_MPS, 'N_sites': int(g.N_sites),
+                'order': tolist(g.order), 'sites': labels(g.mps_sites()), 'width': g.mps_unit_cell_width,
+                'own_width': lat.mps_unit_cell_width, 'm2l': tolist(g.mps2lat_idx(np.arange(m))),
+                'l2m': tolist(g.lat2mps_idx(g.order))}
+    guarded('grouped', grouped, ex)
+
     # geometry
     def geom():
         g = {}
         g['pairs'] = {k: [[int(u1), int(u2), tolist(dx)] for (u1, u2, dx) in v] for k, v in lat.pairs.items()}
         g['basis'] = np.asarray(lat.basis, dtype=float).tolist()
         g['uc_pos'] = np.asarray(lat.unit_cell_positions, dtype=float).tolist()
+        dis = lat.position_disorder
+        lat.position_disorder = None
         g['pos_order'] = np.asarray(lat.position(lat.order), dtype=float).tolist()
+        # other argument forms of position(): one index, indices outside the unit cell along x, a 3D index array
+        far = np.array(lat.order[: 6]).copy()
+        far[:, 0] += np.arange(len(far)) * 2 - 3
+        g['pos_forms'] = {'one': [tolist(lat.order[-1]), flist(lat.position(lat.order[-1]))],
+                          'far': [tolist(far), flist(lat.position(far))],
+                          'list': flist(lat.position([list(map(int, r)) for r in lat.order[: 3]])),
+                          '3d': flist(lat.position(np.array([far, far])))}
+
         def dist_or_none(u1, u2, dx):
             try:
                 return float(lat.distance(u1, u2, np.asarray(dx)))
             except Exception:
                 return None
         g['dist'] = {k: [dist_or_none(u1, u2, dx) for (u1, u2, dx) in v] for k, v in lat.pairs.items()}
+        # a batch of displacements in one call
+        g['dist_batch'] = {k: [flist(lat.distance(u1, u2, np.array([np.asarray(dx), -np.asarray(dx), 2 * np.asarray(dx)])))
+                               for (u1, u2, dx) in v] for k, v in lat.pairs.items()}
         g['count'] = {k: [int(lat.count_neighbors(u, k)) for u in range(len(lat.unit_cell))] for k in lat.pairs}
-        g['uc_dims'] = [None if st is None else int(st.dim) for st in lat.unit_cell]
+        if 'nearest_neighbors' in lat.pairs:
+            g['count_default'] = int(lat.count_neighbors())
+        g['uc_dims'] = [None if (st is None or isinstance(st, str)) else int(st.dim) for st in lat.unit_cell]
         if spec.get('wrap') and spec['wrap']['kind'] == 'multi':
             # the simple lattice, built separately
             sl = build_base(spec, simple_only=True)
@@ -253,32 +582,92 @@ def run(spec):
             rows = []
             for (u1, u2, dx) in v:
                 try:
-                    i, j, _, _ = lat.possible_couplings(u1, u2, np.asarray(dx, dtype=np.intp))
-                    rows.append({'i': tolist(i), 'j': tolist(j)})
+                    i, j, li, sh = lat.possible_couplings(u1, u2, np.asarray(dx, dtype=np.intp))
+                    rows.append({'i': tolist(i), 'j': tolist(j), 'lat': tolist(li) if len(li) else [], 'shape': [int(x) for x in sh]})
                 except Exception as e:
                     rows.append({'error': type(e).__name__ + ': ' + str(e)[:200]})
             pc[k] = rows
         g['pair_couplings'] = pc
+        if dis is not None:
+            # positions and distances with position_disorder
+            lat.position_disorder = dis
+            d = {'disorder': flist(dis), 'pos_order': flist(lat.position(lat.order)),
+                 'pos_far': flist(lat.position(far))}
+            da = {}
+            for k, v in lat.pairs.items():
+                rows = []
+                for (u1, u2, dx) in v:
+                    try:
+                        a = lat.distance(u1, u2, np.asarray(dx))
+                        rows.append({'shape': list(np.shape(a)), 'val': flist(a)})
+                    except Exception as e:
+                        rows.append({'error': type(e).__name__ + ': ' + str(e)[:200]})
+                da[k] = rows
+            d['dist_arr'] = da
+            g['with_disorder'] = d
         return g
     if q.get('geometry'):
         guarded('geometry', geom)
 
         def fcp():
-            r = lat.find_coupling_pairs(q.get('max_dx', 3), q.get('cutoff', 2.5))
+            dis = lat.position_disorder
+            lat.position_disorder = None          # (with disorder the distances are arrays: not what find_coupling_pairs is for)
+            try:
+                if q.get('fcp_defaults'):
+                    r = lat.find_coupling_pairs()
+                else:
+                    r = lat.find_coupling_pairs(q.get('max_dx', 3), q.get('cutoff', 2.5))
+            finally:
+                lat.position_disorder = dis
             return [[float(d), [[int(u1), int(u2), tolist(dx)] for (u1, u2, dx) in v]] for d, v in r.items()]
         guarded('find_pairs', fcp)
+
+    # ---- second pass: the same queries again on the same object, then the state of the object
+    def repeat():
+        r = {}
+        if q['mps_idx']:
+            r['mps2lat'] = tolist(lat.mps2lat_idx(np.array(q['mps_idx'], dtype=np.intp)))
+            r['mps2lat_single'] = [tolist(lat.mps2lat_idx(int(i))) for i in q['mps_idx'][::step_m]]
+        if q['lat_idx']:
+            r['lat2mps'] = tolist(lat.lat2mps_idx(np.array(q['lat_idx'], dtype=np.intp)))
+        cs = []
+        for (u1, u2, dx) in q.get('couplings', [])[:: max(1, len(q.get('couplings', [])) // 8)]:
+            i, j, li, sh = lat.possible_couplings(u1, u2, np.array(dx, dtype=np.intp))
+            cs.append([[u1, u2, list(dx)], tolist(i), tolist(j)])
+        r['couplings'] = cs
+        msr = []
+        for ops in q.get('multi', [])[:3]:
+            ijkl, li, sh = lat.possible_multi_couplings([('X', list(dx), int(u)) for (dx, u) in ops])
+            msr.append(tolist(ijkl) if len(ijkl) else [])
+        r['multi'] = msr
+        r['mps_sites'] = labels(lat.mps_sites())
+        return r
+    guarded('repeat', repeat, ex)
+
+    def set_unit_cell():
+        # "If you want to specify it only after initialization, use None entries": the unit cell is assigned later
+        old = lat.unit_cell
+        lat.unit_cell = ['v%d' % u for u in range(len(old))]
+        got = labels(lat.mps_sites())
+        lat.unit_cell = old
+        lat.basis = lat.basis
+        return {'new': got, 'restored': labels(lat.mps_sites())}
+    guarded('unit_cell_set', set_unit_cell, ex)
+    guarded('snap1', lambda: snapshot(lat))
+    out['extras'] = ex
     return out
 
 
 def main():
     payload = json.load(open(sys.argv[1]))
+    how = start_monitor() if payload.get('trace', True) else 'off'
     res = []
     for spec in payload['specs']:
         try:
             res.append(run(spec))
         except Exception:
             res.append({'runner_error': traceback.format_exc()[-1200:]})
-    json.dump(res, open(sys.argv[2], 'w'))
+    json.dump({'results': res, 'lines': sorted(HIT), 'trace': how}, open(sys.argv[2], 'w'))
 
 
 if __name__ == '__main__':
